@@ -159,7 +159,7 @@ def harnesses(tier, seed):
                           bounds="n=%d; finite model of any size; spectral norm of H = any value in [0,+inf] (overflow of a finite matrix norm included); 1 S-FISTA iteration" % n,
                           assumptions=["np.linalg.norm(H, 2) by contract (LAPACK); NaN norm excluded (the model is finite)"],
                           expect=['sfista-overflow:returned'], nproc=1, wall_budget=200))
-    for h in c17.harnesses('quick', seed):
+    for h in c17.model_harnesses('quick', seed):
         if h.params['npt_so_far'] == h.params['num_pts'] and not h.params['with_h'] and \
                 h.params['op'] in ('save_point_abs', 'get_final_results', 'change_point', 'add_new_sample', 'add_new_point'):
             h.home = 'C08'
